@@ -1,8 +1,539 @@
+//! C15 — `MergeSource` over `TaggedSource`s (hydro_deploy_integration): the merged stream is an
+//! order-preserving, lossless, correctly tagged interleaving that ends exactly when every source has
+//! ended and serves the sources round-robin.
+//!
+//! Workload: n scripted sources. A script is a string over {P,R,E}: the answer to the i-th poll is
+//! `Pending`, `Ready(Some(Ok(next item)))` or `Ready(Some(Err(numbered io::Error)))`; once the script
+//! is used up the source answers `Ready(None)`. The caller polls the merged stream until it ends.
+//! Observed: the merged `Poll` sequence and the global log of inner polls (source, answer, merged
+//! call number). All judgements come from these two logs.
+
+use std::collections::BTreeSet;
+use std::io;
+use std::pin::Pin;
+use std::sync::atomic::{AtomicU32, Ordering};
+use std::sync::{Arc, Mutex};
+use std::task::{Context, Poll, Wake, Waker};
+
+use futures::Stream;
+use hydro_deploy_integration::{MergeSource, TaggedSource};
+use vcommon::{Args, Reporter, Rng, Tier, Value, catch, hash_of, json};
+
+#[derive(Clone, Copy, Debug, PartialEq, Eq, Hash)]
+enum Step {
+    P,
+    R,
+    E,
+}
+
+#[derive(Clone, Copy, Debug, PartialEq, Eq)]
+enum Ans {
+    Pending,
+    Item(u32),
+    Err(u32),
+    End,
+}
+
+#[derive(Clone, Copy, Debug)]
+struct InnerPoll {
+    src: usize,
+    ans: Ans,
+    call: usize,
+    /// poll arrived after this source had already answered `Ready(None)`
+    after_end: bool,
+}
+
+#[derive(Default)]
+struct Log {
+    polls: Vec<InnerPoll>,
+    call: usize,
+}
+
+struct ScriptStream {
+    src: usize,
+    script: Vec<Step>,
+    pos: usize,
+    ended: bool,
+    next_item: u32,
+    log: Arc<Mutex<Log>>,
+}
+
+fn item_no(src: usize, k: u32) -> u32 {
+    (src as u32 + 1) * 100 + k
+}
+
+impl Stream for ScriptStream {
+    type Item = Result<u32, io::Error>;
+    fn poll_next(self: Pin<&mut Self>, cx: &mut Context<'_>) -> Poll<Option<Self::Item>> {
+        let me = self.get_mut();
+        let mut log = me.log.lock().unwrap();
+        let call = log.call;
+        if me.ended {
+            log.polls.push(InnerPoll { src: me.src, ans: Ans::End, call, after_end: true });
+            return Poll::Ready(None);
+        }
+        let (ans, out) = match me.script.get(me.pos).copied() {
+            None => {
+                me.ended = true;
+                (Ans::End, Poll::Ready(None))
+            }
+            Some(Step::P) => {
+                // a real source would keep the waker and call it later; calling it right away is the
+                // same promise ("poll me again") and lets the caller count forwarded wakers
+                cx.waker().wake_by_ref();
+                (Ans::Pending, Poll::Pending)
+            }
+            Some(Step::R) => {
+                let v = item_no(me.src, me.next_item);
+                me.next_item += 1;
+                (Ans::Item(v), Poll::Ready(Some(Ok(v))))
+            }
+            Some(Step::E) => {
+                let v = item_no(me.src, me.next_item);
+                me.next_item += 1;
+                (Ans::Err(v), Poll::Ready(Some(Err(io::Error::other(format!("e{v}"))))))
+            }
+        };
+        me.pos += 1;
+        log.polls.push(InnerPoll { src: me.src, ans, call, after_end: false });
+        out
+    }
+}
+
+struct CountWaker(AtomicU32);
+impl Wake for CountWaker {
+    fn wake(self: Arc<Self>) {
+        self.0.fetch_add(1, Ordering::Relaxed);
+    }
+    fn wake_by_ref(self: &Arc<Self>) {
+        self.0.fetch_add(1, Ordering::Relaxed);
+    }
+}
+
+#[derive(Clone, Debug, Hash, PartialEq, Eq)]
+struct Case {
+    ids: Vec<u32>,
+    scripts: Vec<Vec<Step>>,
+}
+
+fn script_str(s: &[Step]) -> String {
+    s.iter()
+        .map(|x| match x {
+            Step::P => 'P',
+            Step::R => 'R',
+            Step::E => 'E',
+        })
+        .collect()
+}
+
+fn case_json(c: &Case, fam: &str) -> Value {
+    json!({"engine":"mon_merge","family":fam,"ids":c.ids,
+           "scripts": c.scripts.iter().map(|s| script_str(s)).collect::<Vec<_>>()})
+}
+
+#[derive(Clone, Debug, PartialEq, Eq)]
+enum Out {
+    Pending,
+    Ok(u32, u32),
+    Err(u32),
+    Other(String),
+    End,
+}
+
+type Merged = MergeSource<Result<(u32, u32), io::Error>, TaggedSource<u32, ScriptStream>>;
+
+/// Run one case and judge it. Returns true if a violation was reported.
+fn run_case(rep: &mut Reporter, c: &Case, fam: &str) -> bool {
+    let n = c.scripts.len();
+    let log = Arc::new(Mutex::new(Log::default()));
+    let sources: Vec<Pin<Box<TaggedSource<u32, ScriptStream>>>> = (0..n)
+        .map(|i| {
+            Box::pin(TaggedSource::verif_new(
+                c.ids[i],
+                Box::pin(ScriptStream {
+                    src: i,
+                    script: c.scripts[i].clone(),
+                    pos: 0,
+                    ended: false,
+                    next_item: 0,
+                    log: log.clone(),
+                }),
+            ))
+        })
+        .collect();
+    let mut merged: Merged = MergeSource::verif_new(sources);
+    let cw = Arc::new(CountWaker(AtomicU32::new(0)));
+    let waker = Waker::from(cw.clone());
+
+    let total_steps: usize = c.scripts.iter().map(|s| s.len()).sum();
+    // every merged poll that does not end the stream must consume >= 1 script step or the final
+    // `None` of a source, so a correct run needs at most total_steps + n + 1 polls
+    let cap = total_steps + n + 2;
+
+    let mut outs: Vec<Out> = vec![];
+    let mut viol: Option<(String, String)> = None;
+    let mut ended_at: Option<usize> = None;
+    for call in 0..cap {
+        log.lock().unwrap().call = call;
+        let r = catch(|| {
+            let mut cx = Context::from_waker(&waker);
+            Pin::new(&mut merged).poll_next(&mut cx)
+        });
+        match r {
+            Err(p) => {
+                viol = Some(("C15|MergeSource::poll_next|panic".into(), format!("merged poll #{call} panicked: {p}")));
+                break;
+            }
+            Ok(Poll::Pending) => outs.push(Out::Pending),
+            Ok(Poll::Ready(None)) => {
+                outs.push(Out::End);
+                ended_at = Some(call);
+                break;
+            }
+            Ok(Poll::Ready(Some(Ok((tag, v))))) => outs.push(Out::Ok(tag, v)),
+            Ok(Poll::Ready(Some(Err(e)))) => {
+                let s = e.to_string();
+                match s.strip_prefix('e').and_then(|x| x.parse::<u32>().ok()) {
+                    Some(v) => outs.push(Out::Err(v)),
+                    None => outs.push(Out::Other(s)),
+                }
+            }
+        }
+    }
+    drop(merged);
+    let log = log.lock().unwrap();
+    let polls = &log.polls;
+
+    // ---------------------------------------------------------------------------------------
+    // oracle
+    let no_end = ended_at.is_none() && viol.is_none();
+    let mut judge = |sig: &str, what: String| {
+        if viol.is_none() {
+            viol = Some((sig.to_string(), what));
+        }
+    };
+    rep.eval();
+    if no_end {
+        judge("C15|MergeSource::poll_next|no-end-within-step-cap", format!("no Ready(None) within {cap} polls"));
+    }
+
+    // per merged call: slice of inner polls
+    let mut live = vec![true; n]; // by inner logs
+    let mut emitted: Vec<Vec<(bool, u32)>> = vec![vec![]; n]; // (is_ok, number) handed out by each source
+    let mut delivered: Vec<usize> = vec![0; n]; // how many of emitted[s] have been returned by the merged stream
+    let mut idx = 0;
+    let mut pending_answers = 0u32;
+    for (call, out) in outs.iter().enumerate() {
+        let start = idx;
+        while idx < polls.len() && polls[idx].call == call {
+            idx += 1;
+        }
+        let these = &polls[start..idx];
+        rep.eval();
+        let mut polled_now = BTreeSet::new();
+        for p in these {
+            polled_now.insert(p.src);
+            if p.after_end {
+                judge("C15|MergeSource::poll_next|polled-ended-source", format!("merged poll #{call} polled source {} after it had returned Ready(None)", p.src));
+            }
+            match p.ans {
+                Ans::End => live[p.src] = false,
+                Ans::Item(v) => emitted[p.src].push((true, v)),
+                Ans::Err(v) => emitted[p.src].push((false, v)),
+                Ans::Pending => pending_answers += 1,
+            }
+        }
+        let any_live = live.iter().any(|&b| b);
+        match out {
+            Out::End => {
+                if any_live {
+                    let l: Vec<usize> = (0..n).filter(|&s| live[s]).collect();
+                    judge("C15|MergeSource::poll_next|ended-before-all-sources-ended", format!("merged poll #{call} returned Ready(None) while sources {l:?} had not ended"));
+                }
+            }
+            Out::Pending => {
+                if !any_live {
+                    judge("C15|MergeSource::poll_next|pending-after-all-sources-ended", format!("merged poll #{call} returned Pending although every source has ended"));
+                }
+                // Pending promises a wake-up: every source still live must have been asked in this call
+                for s in 0..n {
+                    if live[s] && !polled_now.contains(&s) {
+                        judge("C15|MergeSource::poll_next|pending-without-polling-live-source", format!("merged poll #{call} returned Pending without polling live source {s}"));
+                    }
+                }
+                // ... and none of them may have handed out an item that was then withheld
+                if these.iter().any(|p| matches!(p.ans, Ans::Item(_) | Ans::Err(_))) {
+                    judge("C15|MergeSource::poll_next|item-taken-but-pending-returned", format!("merged poll #{call} took an item from a source and returned Pending"));
+                }
+            }
+            Out::Ok(tag, v) => {
+                match c.ids.iter().position(|t| t == tag) {
+                    None => judge("C15|TaggedSource|unknown-tag", format!("merged poll #{call} returned tag {tag} which no source has")),
+                    Some(s) => {
+                        let owner = (*v / 100) as usize;
+                        if owner != s + 1 {
+                            judge("C15|TaggedSource|wrong-tag", format!("item {v} of source {} delivered with tag {tag} (source {s})", owner.wrapping_sub(1)));
+                        } else {
+                            match emitted[s].get(delivered[s]) {
+                                Some(&(true, w)) if w == *v => delivered[s] += 1,
+                                Some(&(_, w)) => judge("C15|MergeSource::poll_next|per-sender-order-or-duplicate", format!("merged poll #{call} returned item {v} of source {s}, next undelivered item of that source is {w}")),
+                                None => judge("C15|MergeSource::poll_next|per-sender-order-or-duplicate", format!("merged poll #{call} returned item {v} of source {s} which was already delivered or never produced")),
+                            }
+                        }
+                    }
+                }
+            }
+            Out::Err(v) => {
+                let s = (*v / 100) as usize - 1;
+                match emitted.get(s).and_then(|e| e.get(delivered[s])) {
+                    Some(&(false, w)) if w == *v => delivered[s] += 1,
+                    _ => judge("C15|MergeSource::poll_next|per-sender-order-or-duplicate", format!("merged poll #{call} returned error item {v} out of order / duplicated")),
+                }
+            }
+            Out::Other(s) => judge("C15|MergeSource::poll_next|foreign-item", format!("merged poll #{call} returned an error no source produced: {s}")),
+        }
+    }
+    // nothing lost: at the end every item a source handed out has been returned; every scripted item
+    // has been handed out (implied by all sources having ended)
+    if ended_at.is_some() {
+        rep.eval();
+        for s in 0..n {
+            if delivered[s] != emitted[s].len() {
+                judge("C15|MergeSource::poll_next|item-lost", format!("source {s} handed out {} items, merged stream returned {} of them before ending", emitted[s].len(), delivered[s]));
+            }
+            let scripted = c.scripts[s].iter().filter(|x| **x != Step::P).count();
+            if !live[s] && emitted[s].len() != scripted {
+                judge("C15|harness|script-not-consumed", format!("source {s} ended after {} of {} items", emitted[s].len(), scripted));
+            }
+        }
+    }
+    // waker forwarding: each inner Pending answer called the waker it was given exactly once
+    rep.eval();
+    let wakes = cw.0.load(Ordering::Relaxed);
+    if wakes != pending_answers {
+        judge("C15|MergeSource::poll_next|caller-waker-not-forwarded", format!("{pending_answers} inner Pending answers woke their context, the caller's waker saw {wakes} wakes"));
+    }
+
+    // fairness (round-robin): take a source s that answers Ready(Some) at inner poll j. Between its
+    // previous poll (or the start) and j, no other source may have been polled more than once.
+    rep.eval();
+    let mut last_poll: Vec<Option<usize>> = vec![None; n];
+    let mut removal_mid_run = false;
+    let mut item_after_removal = false;
+    let mut some_removed = false;
+    for (j, p) in polls.iter().enumerate() {
+        if matches!(p.ans, Ans::Item(_) | Ans::Err(_)) {
+            let from = last_poll[p.src].map(|x| x + 1).unwrap_or(0);
+            let mut cnt = vec![0u32; n];
+            for q in &polls[from..j] {
+                cnt[q.src] += 1;
+            }
+            if let Some(t) = (0..n).find(|&t| cnt[t] > 1) {
+                let window: Vec<usize> = polls[from..=j].iter().map(|q| q.src).collect();
+                judge(
+                    "C15|MergeSource::poll_next|unfair-ready-source-waited-more-than-one-round",
+                    format!("source {} had data ready but source {t} was polled {} times before it was served (inner polls in between, by source: {window:?})", p.src, cnt[t]),
+                );
+            }
+            if some_removed {
+                item_after_removal = true;
+            }
+        }
+        if p.ans == Ans::End && !p.after_end {
+            some_removed = true;
+            // is some other source still live after this point?
+            if polls[j + 1..].iter().any(|q| q.src != p.src && !q.after_end) {
+                removal_mid_run = true;
+            }
+        }
+        last_poll[p.src] = Some(j);
+    }
+
+    // coverage accounting
+    let had_pending = polls.iter().any(|p| p.ans == Ans::Pending);
+    if outs.iter().any(|o| *o == Out::Pending) {
+        rep.count("cases_with_merged_pending");
+    }
+    if removal_mid_run {
+        rep.count("cases_with_removal_mid_run");
+    }
+    if removal_mid_run && item_after_removal {
+        rep.count("cases_with_item_after_removal");
+    }
+    rep.count(&format!("sources_{n}"));
+    if n >= 2 && removal_mid_run && item_after_removal && had_pending {
+        rep.nontrivial(hash_of(c));
+        rep.sample(|| {
+            json!({"case": case_json(c, fam),
+                   "merged": outs.iter().map(|o| format!("{o:?}")).collect::<Vec<_>>(),
+                   "inner_polls_by_source": polls.iter().map(|p| p.src).collect::<Vec<_>>()})
+        });
+    }
+    if let Some((sig, what)) = viol {
+        let inner: Vec<String> = polls.iter().map(|p| format!("#{}:s{}={:?}", p.call, p.src, p.ans)).collect();
+        rep.violation(&sig, &format!("{what}; merged={outs:?}; inner={inner:?}"), case_json(c, fam));
+        true
+    } else {
+        false
+    }
+}
+
+/// All scripts over `alphabet` with length 0..=max_len.
+fn all_scripts(alphabet: &[Step], max_len: usize) -> Vec<Vec<Step>> {
+    let mut out = vec![vec![]];
+    let mut layer = vec![vec![]];
+    for _ in 0..max_len {
+        let mut next = vec![];
+        for s in &layer {
+            for a in alphabet {
+                let mut t: Vec<Step> = s.clone();
+                t.push(*a);
+                next.push(t);
+            }
+        }
+        out.extend(next.iter().cloned());
+        layer = next;
+    }
+    out
+}
+
+const IDS: [u32; 6] = [7, 3, 4_000_000_000, 0, 42, 5];
+
+fn exhaustive(rep: &mut Reporter, args: &Args, n: usize, alphabet: &[Step], max_len: usize, fam: &str, case_index: &mut usize) {
+    let scripts = all_scripts(alphabet, max_len);
+    let k = scripts.len();
+    let total = k.pow(n as u32);
+    for code in 0..total {
+        *case_index += 1;
+        if !args.in_shard(*case_index) {
+            continue;
+        }
+        let mut c = code;
+        let mut ss = Vec::with_capacity(n);
+        for _ in 0..n {
+            ss.push(scripts[c % k].clone());
+            c /= k;
+        }
+        let case = Case { ids: IDS[..n].to_vec(), scripts: ss };
+        run_case(rep, &case, fam);
+    }
+    rep.count_n(&format!("exhaustive_{fam}_n{n}_len{max_len}"), total as u64);
+}
+
+fn random_case(rng: &mut Rng, n: usize, max_len: usize) -> Case {
+    let mut ids: Vec<u32> = vec![];
+    while ids.len() < n {
+        let t = if rng.chance(1, 2) { rng.below(8) as u32 } else { rng.next_u64() as u32 };
+        if !ids.contains(&t) {
+            ids.push(t);
+        }
+    }
+    // per-source mix so that some sources are mostly pending, some mostly ready, some short
+    let scripts = (0..n)
+        .map(|_| {
+            let len = rng.below(max_len + 1);
+            let p_pending = rng.below(80) as u32;
+            (0..len)
+                .map(|_| {
+                    if rng.chance(p_pending, 100) {
+                        Step::P
+                    } else if rng.chance(1, 8) {
+                        Step::E
+                    } else {
+                        Step::R
+                    }
+                })
+                .collect()
+        })
+        .collect();
+    Case { ids, scripts }
+}
+
+fn replay(rep: &mut Reporter, case: &Value) {
+    let ids: Vec<u32> = case["ids"].as_array().expect("ids").iter().map(|x| x.as_u64().unwrap() as u32).collect();
+    let scripts: Vec<Vec<Step>> = case["scripts"]
+        .as_array()
+        .expect("scripts")
+        .iter()
+        .map(|s| {
+            s.as_str()
+                .unwrap()
+                .chars()
+                .map(|ch| match ch {
+                    'P' => Step::P,
+                    'R' => Step::R,
+                    'E' => Step::E,
+                    _ => panic!("bad script char"),
+                })
+                .collect()
+        })
+        .collect();
+    let fam = case["family"].as_str().unwrap_or("replay").to_string();
+    run_case(rep, &Case { ids, scripts }, &fam);
+}
+
 fn main() {
-    let args = vcommon::Args::parse();
+    let args = Args::parse();
     if args.prop == "NONE" {
         return;
     }
-    eprintln!("not implemented yet");
-    std::process::exit(3);
+    if args.prop != "C15" {
+        eprintln!("mon_merge serves C15 only");
+        std::process::exit(3);
+    }
+    let mut rep = Reporter::new("C15", args.seed);
+    if let Some(case) = args.replay_case() {
+        replay(&mut rep, &case);
+        rep.finish("replay", false);
+        return;
+    }
+    let mut rng = args.rng();
+    let mut ci = 0usize;
+    let pr = [Step::P, Step::R];
+    let pre = [Step::P, Step::R, Step::E];
+
+    // (1) bounded-exhaustive
+    run_case(&mut rep, &Case { ids: vec![], scripts: vec![] }, "exh-pr"); // no source at all: ends at once
+    match args.tier {
+        Tier::Quick => {
+            for n in 1..=3 {
+                exhaustive(&mut rep, &args, n, &pr, 4, "exh-pr", &mut ci); // 31^3 = 29 791
+                exhaustive(&mut rep, &args, n, &pre, 3, "exh-pre", &mut ci); // 40^3 = 64 000
+            }
+            exhaustive(&mut rep, &args, 4, &pr, 3, "exh-pr", &mut ci); // 15^4 = 50 625
+        }
+        Tier::Thorough => {
+            for n in 1..=2 {
+                exhaustive(&mut rep, &args, n, &pre, 6, "exh-pre", &mut ci); // 1093^2
+            }
+            exhaustive(&mut rep, &args, 3, &pr, 6, "exh-pr", &mut ci); // 127^3 = 2.0e6
+            exhaustive(&mut rep, &args, 3, &pre, 4, "exh-pre", &mut ci); // 121^3 = 1.8e6
+            exhaustive(&mut rep, &args, 4, &pr, 4, "exh-pr", &mut ci); // 31^4 = 9.2e5
+            exhaustive(&mut rep, &args, 4, &pre, 3, "exh-pre", &mut ci); // 40^4 = 2.6e6
+        }
+        Tier::Miri => {
+            for n in 1..=3 {
+                exhaustive(&mut rep, &args, n, &pr, 2, "exh-pr", &mut ci);
+            }
+        }
+    }
+
+    // (2) random: 4 sources x <= 12 steps (and a share with 2..6 sources)
+    for i in 0..args.budget(150_000, 3_000_000, 30) {
+        ci += 1;
+        let n = if i % 3 == 0 { 2 + rng.below(5) } else { 4 };
+        let case = random_case(&mut rng, n, 12);
+        if args.in_shard(ci) {
+            run_case(&mut rep, &case, "random");
+        }
+    }
+
+    let miri = args.tier == Tier::Miri;
+    rep.require(miri || rep.counter("cases_with_item_after_removal") > 1000, "fewer than 1000 cases with an item served after a removal");
+    rep.require(miri || rep.counter("cases_with_merged_pending") > 1000, "fewer than 1000 cases where the merged stream returned Pending");
+    rep.require(miri || (1..=4).all(|n| rep.counter(&format!("sources_{n}")) > 0), "not every source count 1..4 seen");
+    rep.finish(
+        "every assignment of scripts (strings over {Pending, Ready(item)} / {Pending, Ready(item), Ready(Err)} up to the tier's length, then Ready(None)) to 1..3 and to 4 tagged sources, plus random 2..6 sources x <=12 steps with random tags; the caller polls until Ready(None). Judged from the merged Poll sequence and the inner poll log: tags, per-sender order, nothing lost/duplicated, end exactly when all ended, Pending only after asking every live source, no poll of an ended source, waker forwarded, ready source served before any other source is polled twice. Non-trivial = distinct case with >=2 sources, a Pending answer, a source ending while others are live and an item served after that removal",
+        true,
+    );
 }
